@@ -11,19 +11,19 @@ CLAIMED = {
    ref="DESIGN.md §4 R7 R6 R10 R22 R23; §5 C03"),
  "C04": dict(
    technique="static analysis: dependency-shape rules over SSA terms of every success return (which input/attribute reaches which term), guarded-Repeat rule for MatMul's batch broadcasting",
-   text="Gemm's, Scaler's and LinearRegressor's success returns are rendered as terms over gorgonia calls, inputs and attribute fields and must be exactly alpha*(op(A) op(B)) [+ unidirectionally broadcast beta*C], (X - offset)*scale and X*coefficients + intercepts, with transposes conditional on their own flags and the coefficient layout (targets, n/targets)^T; any additional result path (a fast path that bypasses the unidirectional broadcast of C) is a violation. MatMul's batch broadcasting starts at axis len-3 and only stretches extent-1 axes.",
+   text="Gemm's, Scaler's and LinearRegressor's success returns are rendered as terms over gorgonia calls, inputs and attribute fields and must be exactly alpha*(op(A) op(B)) [+ unidirectionally broadcast beta*C], (X - offset)*scale and X*coefficients + intercepts, with transposes conditional on their own flags and the coefficient layout (targets, n/targets)^T; any additional result path (a fast path that bypasses the unidirectional broadcast of C) is a violation. MatMul's batch broadcasting starts at axis len-3 and only stretches extent-1 axes. Operands, weights and receiver fields are never written by Apply (E2 with an audited contract table: e.g. gorgonia's Dot transposes its second operand in place for vector x matrix); defaults replace an optional input only where it is absent (R24).",
    note="Level 'other', narrow: a who-must-call rule on today's factoring (a behaviour-equal re-implementation is reported too; stated in DESIGN). Not decided: numeric accuracy, gorgonia's MatMul/Transpose, every rank combination of MatMul's vector promotion.",
    ref="DESIGN.md §4 R16 R10; §5 C04"),
  "C05": dict(
    technique="static analysis: abstract dimension-index kinds over every index expression of Conv (FULL/SPATIAL/PADS lists x index kinds), loop/coordinate pairing rules on the sliding-window nests, partition rule on auto_pad comparisons, ownership and attribute-state rules",
-   text="Square fixtures cannot tell axes apart; the rules constrain which axis an expression may talk about: K1 classifies all ~60 index expressions in Conv's methods (a per-tensor-axis list may only be indexed by a constant, a non-spatial, a full-range or a spatial+2 index, ...); K2 pairs, per spatial axis k, the window start (step strides[k], bound = padded extent 2+k), the output index (start/strides[k], limited by output extent 2+k) and its SetAt position 2+k; K3 pairs batch and kernel indices; K4 requires every auto_pad mode to be told apart and unknown modes refused; bias is not modified (R3); Apply does not overwrite attributes (R21).",
+   text="Square fixtures cannot tell axes apart; the rules constrain which axis an expression may talk about: K1 classifies all ~60 index expressions in Conv's methods (a per-tensor-axis list may only be indexed by a constant, a non-spatial, a full-range or a spatial+2 index, ...); K2 pairs, per spatial axis k, the window start (step strides[k], bound = padded extent 2+k), the output index (start/strides[k], limited by output extent 2+k) and its SetAt position 2+k; K3 pairs batch and kernel indices; K4 requires every auto_pad mode to be told apart and unknown modes refused; K6 requires every reader of the kernel extents (auto_pad paddings, output shape) to be given the dilated kernel; bias and kernel are not modified (R3); Apply does not overwrite attributes (R21); the bias default only replaces an absent bias (R24).",
    note="Level 'other'. One known finding (auto_pad=VALID computed as SAME_UPPER, pinned by the suite). Not decided: the multiply-accumulate itself, zero insertion for dilation, padding by concatenation.",
-   ref="DESIGN.md §4 R11; §5 C05"),
+   ref="DESIGN.md §4 R11 R24; §0a round 2; §5 C05"),
  "C06": dict(
    technique="static analysis: slot-provenance rules over SSA def-use (which block of the packed W/R/B/P tensors reaches which gate operand), role derivation from the callee's Gemm operands, term rules for state updates and output shapes, attribute honoured-or-refused rule",
-   text="Gate-order and bias-slot swaps pass zero-bias fixtures; provenance sees them whatever the values: extractors return block k as result k (P1); every gate uses W[k], R[k] and the bias pair {B[k], B[k+n]} of one slot, each slot exactly once (P3); LSTM: C_t = f(.)C_{t-1} + i(.)c with f=slot 2, peepholes Pi,Po,Pf on slots 0,1,2, o reads C_t, activations f/g/h; GRU: H_t = (1-z)(.)h~ + z(.)H_{t-1}, reset gate and linear_before_reset forms (P4); state threading and fresh clones of the final state (P5); output shapes from X.Shape()[0], X.Shape()[1] (P6); per-step slice on axis 0 only (P7); attributes honoured or refused (R8), activations length checked (R9c). 'Consistent under splitting' is reduced to: the step has no state besides the loop-carried tensors and the final state returned is what the next call receives as initial state.",
+   text="Gate-order and bias-slot swaps pass zero-bias fixtures; provenance sees them whatever the values: extractors return block k as result k (P1); every gate uses W[k], R[k] and the bias pair {B[k], B[k+n]} of one slot, each slot exactly once (P3); LSTM: C_t = f(.)C_{t-1} + i(.)c with f=slot 2, peepholes Pi,Po,Pf on slots 0,1,2, o reads C_t, activations f/g/h; GRU: H_t = (1-z)(.)h~ + z(.)H_{t-1}, reset gate and linear_before_reset forms (P4); state threading and fresh clones of the final state (P5); output shapes from X.Shape()[0], X.Shape()[1] (P6); per-step slice on axis 0 only (P7); attributes honoured or refused (R8), activations length checked (R9c); each optional input is defaulted only on its own nil edge, independently of the others (R24). 'Consistent under splitting' is reduced to: the step has no state besides the loop-carried tensors and the final state returned is what the next call receives as initial state.",
    note="Level 'other'. Not decided: the arithmetic of a step, float64, numeric agreement of whole vs split runs beyond the structural argument.",
-   ref="DESIGN.md §4 R12 R8 R9; §5 C06"),
+   ref="DESIGN.md §4 R12 R8 R9 R24; §5 C06"),
  "C10": dict(
    technique="static analysis: operator->function table over SSA terms, dtype-case/generic-instantiation pairing, truth-table evaluation (Not), control-dependence rule for PRelu's kernel, mask-multiplication rule",
    text="Each of the 17 operators is tied to its function: 11 generic closures must be T(math.F(float64(x))) with the [float32] instance under case Float32 and [float64] under Float64; Abs/Tanh delegate to gorgonia; Sigmoid has the dependency shape 1/(1+exp(-x)); Relu is max(x,0) - never x*(x>0), which is NaN at -Inf (R18); Not's closure has truth table 10; PRelu broadcasts the slope unidirectionally and its kernel applies the slope only on the x<0 branch; Data() of possibly rank-0 operands passes the scalar wrapper.",
@@ -31,12 +31,12 @@ CLAIMED = {
    ref="DESIGN.md §4 R7 R18 R20; §5 C10"),
  "C11": dict(
    technique="static analysis: exhaustive enum<->Go-type table evaluation (AST + go/types) for Cast's 10 targets x 10 sources, alias-flow rule for direct conversion, Constant attribute table, ConstantOfShape gates",
-   text="The 10x10 Cast pairs are a finite table read off the code: each numeric target code instantiates the element converter with its Go type, non-numeric and unknown targets return an error; each source dtype asserts its own []T; the converter is fed the input's own backing (not a widened copy, which loses 64-bit integers); out[i] = R(in[i]); the scalar wrapper covers every source type Cast admits. Constant: attribute name -> getter -> ONNX element type, refusals, exactly one attribute. ConstantOfShape: float32(0) default, one-element value, positive extents, result type from the value.",
+   text="The 10x10 Cast pairs are a finite table read off the code: each numeric target code instantiates the element converter with its Go type, non-numeric and unknown targets return an error; each source dtype asserts its own []T; the converter is fed the input's own backing (not a widened copy, which loses 64-bit integers); out[i] = R(in[i]); the scalar wrapper covers every source type Cast admits. Constant: attribute name -> getter -> ONNX element type, refusals, exactly one attribute. ConstantOfShape: float32(0) default, one-element value, positive extents, result type from the value; Apply keeps no state in the operator (R21: no memoised result) and does not compare shapes with gorgonia's lax Shape.Eq (R22).",
    note="Level 'other', exhaustive over the tables. Value conversion semantics are Go's conversion (= C conversion) by the language spec. Not decided: out-of-range float->int conversions (implementation-defined in Go).",
    ref="DESIGN.md §4 R14; §5 C11"),
  "C16": dict(
    technique="static analysis: structural necessary conditions only (Conv batch-index pairing, recurrent time-slice on axis 0, output reshape provenance, guarded Repeat in per-sample operators, attribute state)",
-   text="The statement is a numeric equivalence between batched and single evaluation, which this family cannot decide. Claimed are five structural conditions whose violation provably breaks per-sample independence: the Conv window's sample index is the output's sample index; the recurrent per-step slice cuts axis 0 only; recurrent outputs are reshaped with batch = X.Shape()[1]; every Repeat in Conv/Gemm/MatMul/recurrent code stretches only extent-1 axes (a tiled peephole vector makes weights depend on batch position); Apply does not carry input-derived state between calls.",
+   text="The statement is a numeric equivalence between batched and single evaluation, which this family cannot decide. Claimed are six structural conditions whose violation provably breaks per-sample independence: the Conv window's sample index is the output's sample index; the recurrent per-step slice cuts axis 0 only; recurrent outputs are reshaped with batch = X.Shape()[1]; every Repeat in Conv/Gemm/MatMul/recurrent code stretches only extent-1 axes (a tiled peephole vector makes weights depend on batch position); Apply does not carry input-derived state between calls; Transpose.Apply is the single gorgonia Transpose on the requested permutation on every success path (no shape-dependent shortcut).",
    note="Level 'other', very narrow: NOT decided - the property itself (numeric equality of batched and single evaluation).",
    ref="DESIGN.md §5 C16"),
  "C07": dict(
@@ -46,12 +46,12 @@ CLAIMED = {
    ref="DESIGN.md §4 R9 R3 R20; §5 C07"),
  "C08": dict(
    technique="static analysis: axes/index taint with validation+normalisation dominance (R9), guarded-Repeat rule (R10), rank-restoration rule for Slice (R19), ownership analysis (R3)",
-   text="Decides the refusal and axis-plumbing clauses: user axes of Slice/Gather/Concat/Transpose and Gather's index data reach Go indexing only under a rejecting two-sided range check (or a validating gorgonia callee whose error is handled) and after negative normalisation; Expand stretches only through Repeat calls dominated by extent==1 (today via the multidirectional broadcast helper); Slice must restore the axes gorgonia's Slice drops (known finding); operands are never modified.",
+   text="Decides the refusal and axis-plumbing clauses: user axes of Slice/Gather/Concat/Transpose and Gather's index data reach Go indexing only under a rejecting two-sided range check (or a validating gorgonia callee whose error is handled) and after negative normalisation `x + r` under x<0 where r is provably the rank/extent of a tensor (derived through parameters, closures and variable cells); Transpose.Apply is the single gorgonia Transpose on the requested permutation; Expand stretches only through Repeat calls dominated by extent==1 (today via the multidirectional broadcast helper); Slice must restore the axes gorgonia's Slice drops (known finding); operands are never modified.",
    note="Level 'other'. Not decided: the ONNX index formulas themselves (Gather's paired slices, clamping, negative steps), Transpose/Concat data movement (gorgonia). One known finding: Slice drops extent-1 axes.",
    ref="DESIGN.md §4 R9 R10 R19 R3; §5 C08"),
  "C09": dict(
    technique="static analysis: axis taint with per-callee axis contracts (which gorgonia reductions resolve negative axes, which validate which side), control-dependence rule for keepdims, result-type rule",
-   text="Only the axis plumbing is decided (the softmax numerics are out of reach of this family): every requested axis reaches gorgonia or a Go index only after `+ rank` normalisation unless the callee resolves negatives itself (SoftMax/LogSoftMax do, Argmax/Max/Min treat -1 as 'all axes'); the reshape that re-inserts reduced axes is control-dependent on the keepdims attribute field; ArgMax's result is backed by []int64; a reduced rank-0 result passes the scalar wrapper.",
+   text="Only the axis plumbing is decided (the softmax numerics are out of reach of this family): every requested axis reaches gorgonia or a Go index only after `+ rank` normalisation unless the callee resolves negatives itself (SoftMax/LogSoftMax do, Argmax/Max/Min treat -1 as 'all axes'); the reshape that re-inserts reduced axes is control-dependent on the keepdims attribute field; ArgMax's result is backed by []int64; a reduced rank-0 result passes the scalar wrapper; Softmax/LogSoftmax.Apply return the single gorgonia call on (input, normalised axis) on every success path.",
    note="Level 'other', narrow. Not decided: softmax normalisation/finiteness, first-occurrence ties, NaN handling, 'all axes when none given' (ReduceMax/Min without axes is refused today - behavioural). Out-of-range axes are recorded as notes (the statement is silent on them).",
    ref="DESIGN.md §4 R9 R20; §5 C09"),
  "C14": dict(
@@ -71,7 +71,7 @@ CLAIMED = {
    ref="DESIGN.md §4 R13; §5 C12"),
  "C13": dict(
    technique="static analysis: CFG/dominance rules over the shape validator (loop exits, comparison operands, rejecting edges), must-be-first rule in Run, effect analysis of the validator, call-graph source agreement of introspection methods",
-   text="The statement is structural: Run accepts exactly the declared signature. The validator's SSA form is checked for: iteration over the declared input shapes (V1); an iteration ends early only for an initializer name, a dimension is passed only when dynamic or equal (V2); missing input => error (V3); rank inequality => error before any extent is read (V4); declared[i].Size compared with received[i] at the same i for every i, mismatch => error, only for non-dynamic dims (V5); the validator is the first call of Run on Run's own inputs and everything else lies on its nil edge (M1); nothing reachable from it mutates a tensor (R3); IsDynamic <=> dim_value == 0 (V7); InputShapes/InputDimSize/validator all derive shapes from the graph's declared inputs (V8).",
+   text="The statement is structural: Run accepts exactly the declared signature. The validator's SSA form is checked for: iteration over the declared input shapes (V1); an iteration ends early only for an initializer name, a dimension is passed only when dynamic or equal (V2); missing input => error (V3); rank inequality => error before any extent is read (V4); declared[i].Size compared with received[i] at the same i for every i, mismatch => error, only for non-dynamic dims (V5); the validator is the first call of Run on Run's own inputs and everything else lies on its nil edge (M1); nothing reachable from it mutates a tensor (R3); IsDynamic <=> dim_value == 0 (V7); InputShapes/InputDimSize/validator all derive shapes from the graph's declared inputs (V8); the initializer map the validator consults to skip names is written only during model construction (R3w), and shape matching never goes through gorgonia's lax Shape.Eq (R22).",
    note="Level 'other'. The rules recognise the validator by role (first callee of Run receiving Run's parameter and returning error). Inputs declared without shape information are not checked by the library at all (outside the quantifier).",
    ref="DESIGN.md §4 R17 R5.M1 R3; §5 C13"),
  "C18": dict(
